@@ -25,6 +25,11 @@ CHECKS = {
          "Held on the executions observed: all 20 commands on generated multi-language trees, directory vs union of files, random file lists and mixed file+directory lists, CLI vs library for files, directories and cross-file rules; evidence counts each comparison kind.",
          "Trusted: path normalisation against the working directory; the library rule name is the one each linter's docs pass to Linter.lint(rules=[...]); union laws only for per-file rules.",
          "DESIGN.md section 4 C10"),
+
+ "C09": ("runtime monitoring: boundary trace of identical project content under different parent directories / working directories / target spellings; relational oracle against the reference run after mapping reported paths (also inside messages) to project-relative paths",
+         "Held on the executions observed: every built-in excluded directory name and test-marker substring as parent, ten spellings (dot, absolute, relative, .., sibling, file lists, --project-root), all 20 commands; evidence counts comparisons per parent class and spelling.",
+         "Trusted: the path normaliser; each generated project root carries a .git/ marker; the reference is '.' from inside an innocuous parent.",
+         "DESIGN.md section 4 C09"),
 }
 PENDING = {}
 props = [json.loads(l) for l in open(os.path.join(HERE, "properties.jsonl"))]
